@@ -65,12 +65,13 @@ G["C16"] = [
  ("C16-x86-wrong-encoding", "x86", lambda m, k: k == "cand-differs" and m not in ("high-byte-register", "segment-prefix-dropped"),
   "as C15-x86-wrong-encoding, through the parser: SIB operand with an 8-bit displacement (`c0 2c 00 b0` SHR BYTE PTR [RAX * 0x2], 0xB0): an encoding of the parsed instruction carries a "
   "32-bit displacement after a mod=01 ModRM byte and decodes to another immediate; `40 90` XCHG EAX, EAX -> `90` NOP"),
- ("C16-x86-16bit-push-imm32", "x86", lambda m, k: k == "text-differs",
-  "16-bit mode `66 68 3d e7 89 73` PUSH 0x7389E73D: the parser returns an instruction printing `PUSH 0xE73D` (immediate truncated to the mode's size)"),
+ ("C16-x86-text-not-parsed-back", "x86", lambda m, k: k == "text-differs",
+  "x86 texts the parser reads differently: 16-bit mode `66 68 3d e7 89 73` PUSH 0x7389E73D parses to an instruction printing `PUSH 0xE73D` (immediate truncated to the mode's size); "
+  "`0f 20 7f 00` MOV DWORD PTR [EDI], CR7 parses to `MOV DWORD PTR [EDI], loc_key_0` (CR5 .. CR7 are printed by the decoder and unknown to the parser, which takes them for labels)"),
  ("C16-aarch64-load-store-and-extend-forms", "aarch64", lambda m, k: True,
   "as C15-aarch64-load-store-index-forms, through the parser: LDP / STP / LDR* / STR* pre-index, post-index and signed-offset forms are re-encoded as one another; negative SIMD pair "
   "offsets raise ValueError 'cannot asm'; extended-register forms with the zero register print a text the parser refuses: `e0 8d 3f ab` little endian ADDS X0, X15, WZR SXTB 0x3 -> "
-  "TypeError in fromstring, `STR H24, [X1, XZR LSL 0x1]` -> 'cannot fromstring', `LDRB W1, [X10, XZR]` -> ValueError in asm"),
+  "TypeError in fromstring, `STR H24, [X1, XZR LSL 0x1]` -> 'cannot fromstring', `LDRB W1, [X10, XZR]` -> ValueError in asm; REV as in C15-aarch64-rev"),
  ("C16-arm-register-offset-forms", "arm", lambda m, k: k == "ValueError",
   "ARM halfword / signed / doubleword transfers with a negative or post-indexed register offset print a text the parser refuses: `d8 3e 2e 90` little endian LDRDLS R3, [LR], -R8! -> "
   "ValueError 'cannot fromstring' (LDRD STRD LDRH STRH LDRSB LDRSH)"),
@@ -100,7 +101,42 @@ G["C16"] = [
  ("C16-ppc32-branch-targets", "ppc32", lambda m, k: k == "asm-ValueError",
   "as C15-ppc32-branch-targets, through the parser: branches with a negative displacement (target printed >= 0x80000000) raise ValueError 'cannot asm'"),
 ]
-TARGET = {"C15": "C15/asm", "C16": "C16/parse"}
+G["C14"] = [
+ ("C14-x86-operand-size", "x86", lambda m, k: k in ("ValueError", "AssertionError") and m in ("CALL", "JMP", "RET", "RETF", "IRET", "IRETD", "ENTER", "LODSD", "SCASD", "STOSD", "MOV", "MOVD", "MOVSXD", "SIDT"),
+  "x86 instructions whose operand size differs from the size of the mode make the lifter raise a size-mismatch ValueError / AssertionError instead of "
+  "IR or an unsupported report: 0x66-prefixed CALL / JMP / RET / RETF / IRET / ENTER in every mode (e.g. 32-bit `66 c2 c8 df` RET 0xDFC8: EIP = @16[...]), plain "
+  "IRETD (cf) in 64-bit mode (RIP = @32[...]), and in 16-bit mode 66-prefixed LODSD / SCASD / STOSD, MOVD m, mm and MOV to / from CRn with a memory operand; "
+  "66-prefixed MOVSXD in 64-bit mode (`66 63 d8` MOVSXD BX, EAX: signExtend to a smaller size) and SIDT with a 16-bit memory operand in 16-bit mode (`0f 01 4a 3e`: ValueError 'not exprmem 32bit instance')"),
+ ("C14-x86-fpu-pop-st0", "x86", lambda m, k: k == "AttributeError",
+  "x87 arithmetic-and-pop with destination ST(0) (`de c0` FADDP ST(0), ST and the FMULP / FSUBP / FSUBRP / FDIVP / FDIVRP forms): float_prev(ST(0)) is None and "
+  "ExprAssign(None, ...) raises AttributeError in the lifter"),
+ ("C14-x86-cmpsd-memory-width", "x86", lambda m, k: m.startswith("CMP") and m.endswith("SD"),
+  "SSE2 scalar-double compares with a memory operand (`f2 0f c2 00 00` CMPEQSD XMM0, [EAX]): the decoder gives the operand 32 bits (DWORD PTR), the lifter compares it with "
+  "XMM0[0:64] and raises 'ExprOp args must have same size'"),
+ ("C14-aarch64-32bit-forms", "aarch64", lambda m, k: m in ("BFM", "SBFM", "UBFM", "MOVK", "EXTR"),
+  "the AArch64 decoder accepts 32-bit forms with immediates that only exist for 64-bit registers (BFM / SBFM / UBFM Wd with immr or imms >= 32, MOVK Wd with "
+  "LSL 32 / 48, EXTR Wd with lsb >= 32: reserved encodings); the lifter then slices outside the register: AssertionError or size-mismatch ValueError "
+  "(e.g. `72 e1 21 76` little endian: MOVK W22, 0x90B LSL 0x30)"),
+ ("C14-aarch64-fcvtzu-width", "aarch64", lambda m, k: m == "FCVTZU",
+  "AArch64 `01 00 79 1e` little endian FCVTZU W1, D0: the lifter assigns a 64-bit conversion result to the 32-bit register: 'ExprAssign args must have same size'"),
+ ("C14-arm-ldrd-strd-pc", "arm", lambda m, k: m in ("LDRD", "STRD"),
+  "ARM LDRD / STRD with Rt = PC (unpredictable encoding, accepted by the decoder): the second register is taken as all_regs[16] = zf, and the lifter raises "
+  "'ExprAssign args must have same size' (zf, 1 bit, against a 32-bit memory word), e.g. `e1 8e f1 da` big endian: LDRD PC, [LR, R10]"),
+ ("C14-armt-it-nv", "armt", lambda m, k: m == "IT",
+  "Thumb IT block with the condition NV (first-condition field 0b1111, e.g. `e8 bf`): do_it_block looks the condition up in cond_dct_inv and raises KeyError('NV')"),
+ ("C14-mips32-fp-widths", "mips32", lambda m, k: k == "ValueError",
+  "MIPS floating-point registers are 64 bits wide and the semantics move 32-bit values in and out without extension: every LWC1 / SWC1 (3 % of the decodable random words), "
+  "MFC1 / MTC1 (`44 09 70 00` big endian MFC1 T1, F14) and C.EQ.D / C.LT.D / C.LE.D (64-bit fcomp result into the 32-bit FCCn) raise 'ExprAssign args must have same size'"),
+ ("C14-mips32-ins-range", "mips32", lambda m, k: m == "INS",
+  "MIPS INS with msb < lsb (reserved encoding accepted by the decoder, printed with a negative size such as `INS AT, S4, 0x13, 0xFFFFFFFC`): the lifter's slice fails an assertion"),
+ ("C14-msp430-single-operand-destination", "msp430", lambda m, k: True,
+  "MSP430 single-operand instructions (rra.w, rrc.w, swpb, sxt) with an immediate / constant-generator or auto-increment operand (`rrc.w @R14+`, `sxt 0x8`): the "
+  "semantics assign to the operand expression itself and AssignBlock raises 'Destination cannot be a ExprOp / ExprInt'"),
+ ("C14-ppc32-update-forms", "ppc32", lambda m, k: True,
+  "PowerPC load / store with update and RA = 0 (invalid form accepted by the decoder, `9e 60 0b 4a`: STBU R19, (0xB4A)): the semantics take .args of the constant address and raise "
+  "AttributeError; LHBRX with RA = 0 (`7e 00 06 2c`) fails an assertion"),
+]
+TARGET = {"C14": "C14/lift", "C15": "C15/asm", "C16": "C16/parse"}
 
 
 def main(pid):
